@@ -1,0 +1,10 @@
+//go:build verif
+
+package lisp
+
+// ResetStepperForVerif resets the debugger's package-level flags (skip, outing1,
+// outing2), which otherwise survive from one evaluation to the next. Compiled
+// only with the "verif" build tag, for the verification harness.
+func ResetStepperForVerif() {
+	skip, outing1, outing2 = false, false, false
+}
